@@ -183,4 +183,81 @@ theorem coopNorm_single (k : Nat) (b : BM) (hat : b.atag = List.range k) : coopN
     simp only [List.length_map, List.length_range] at h1
     simp [hat, h1]
 
+/-! ## SparseCooperativeQLearning: one applicable all-agents rule before and after = flat Q-learning's update -/
+
+theorem sumN_const (k : Nat) (c : Rat) : sumN k (fun _ => c) = (k : Rat) * c := by
+  induction k with
+  | zero => simp [sumN]
+  | succ n ih => simp only [sumN]; rw [ih]; push_cast; ring
+
+theorem addAt_map_getD (val : Rat) (k : Nat) (per : List Rat) (hl : per.length = k) (ag : Nat) (hag : ag < k) :
+    (addAt per (List.range k) val).getD ag 0 = per.getD ag 0 + val := by
+  rw [addAt_getD val _ _ ag (range_nodup' _) (fun t ht => by rw [hl]; exact List.mem_range.mp ht)]
+  simp [List.mem_range.mpr hag]
+
+theorem sparsePer_single_getD (k : Nat) (alpha gamma : Rat) (rules : List QRule) (s a s1 a1 : List Nat) (rew : List Rat)
+    (r r' : QRule) (hb : rules.filter (·.applies s a) = [r]) (haft : rules.filter (·.applies s1 a1) = [r'])
+    (hr : r.ak = List.range k) (hr' : r'.ak = List.range k) (hrew : rew.length = k) (ag : Nat) (hag : ag < k) :
+    (sparsePer k alpha gamma rules s a s1 a1 rew).getD ag 0
+      = (rew.getD ag 0 + (gamma * r'.value / (k : Rat) + -r.value / (k : Rat))) * alpha := by
+  unfold sparsePer
+  simp only [hb, haft, List.foldl_cons, List.foldl_nil, hr, hr', List.length_range]
+  have hcnt : ∀ i, i < k → (addAt (List.replicate k (0 : Rat)) (List.range k) 1).getD i 0 = 1 := by
+    intro i hi
+    rw [addAt_map_getD 1 k _ (by simp) i hi]
+    simp [List.getD_eq_getElem?_getD, hi]
+  have hl0 : ((rew.zip (addAt (List.replicate k (0 : Rat)) (List.range k) 1)).map (fun rc => rc.1 / rc.2)).length = k := by
+    simp [hrew, addAt_length]
+  have h0 : ((rew.zip (addAt (List.replicate k (0 : Rat)) (List.range k) 1)).map (fun rc => rc.1 / rc.2)).getD ag 0 = rew.getD ag 0 := by
+    have h1 : ag < rew.length := by omega
+    have h2 : ag < (addAt (List.replicate k (0 : Rat)) (List.range k) 1).length := by rw [addAt_length]; simpa using hag
+    have hc := hcnt ag hag
+    rw [List.getD_eq_getElem?_getD, List.getElem?_eq_getElem h2] at hc
+    simp only [Option.getD_some] at hc
+    have hz : ag < (rew.zip (addAt (List.replicate k (0 : Rat)) (List.range k) 1)).length := by
+      rw [List.length_zip]; omega
+    rw [List.getD_eq_getElem?_getD, List.getElem?_map, List.getElem?_eq_getElem hz]
+    simp only [Option.map_some, Option.getD_some, List.getElem_zip, hc, div_one]
+    simp [List.getD_eq_getElem?_getD, List.getElem?_eq_getElem h1]
+  have hl1 : (addAt ((rew.zip (addAt (List.replicate k (0 : Rat)) (List.range k) 1)).map (fun rc => rc.1 / rc.2)) (List.range k)
+      (gamma * r'.value / (k : Rat))).length = k := by rw [addAt_length, hl0]
+  have hl2 : ag < (addAt (addAt ((rew.zip (addAt (List.replicate k (0 : Rat)) (List.range k) 1)).map (fun rc => rc.1 / rc.2)) (List.range k)
+      (gamma * r'.value / (k : Rat))) (List.range k) (-r.value / (k : Rat))).length := by rw [addAt_length, hl1]; exact hag
+  rw [List.getD_eq_getElem?_getD, List.getElem?_map, List.getElem?_eq_getElem hl2]
+  simp only [Option.map_some, Option.getD_some]
+  have e := addAt_map_getD (-r.value / (k : Rat)) k _ hl1 ag hag
+  rw [List.getD_eq_getElem?_getD, List.getElem?_eq_getElem hl2] at e
+  simp only [Option.getD_some] at e
+  rw [e, addAt_map_getD _ k _ hl0 ag hag, h0]
+  ring
+
+/-- **SparseCooperativeQLearning, single applicable rule = flat Q-learning**: when exactly one rule `r` applies to (s, a)
+    and exactly one rule `r'` to (s1, a1) — as with one rule per joint (state, action) — and both name all `k ≥ 1`
+    agents, the step changes only `r`, to flat Q-learning's update of `r.value` towards `Σ rew + γ·r'.value` -/
+theorem sparseStep_single (k : Nat) (alpha gamma : Rat) (rules : List QRule) (s a s1 a1 : List Nat) (rew : List Rat)
+    (r r' : QRule) (hb : rules.filter (·.applies s a) = [r]) (haft : rules.filter (·.applies s1 a1) = [r'])
+    (hr : r.ak = List.range k) (hr' : r'.ak = List.range k) (hrew : rew.length = k) (hk : k ≠ 0) :
+    sparseStep k alpha gamma rules (s, a, s1, a1, rew)
+      = rules.map (fun x => if x.applies s a then { x with value := qlUpdate alpha gamma r.value r'.value (rew.foldl (· + ·) 0) } else x) := by
+  unfold sparseStep
+  apply List.map_congr_left
+  intro x hx
+  by_cases hap : x.applies s a = true
+  · have hxr : x = r := by
+      have : x ∈ rules.filter (·.applies s a) := List.mem_filter.mpr ⟨hx, hap⟩
+      rw [hb] at this
+      simpa using this
+    subst hxr
+    simp only [hap, if_true]
+    congr 1
+    rw [hr, foldl_range_sumN]
+    have hper := fun ag hag => sparsePer_single_getD k alpha gamma rules s a s1 a1 rew x r' hb haft hr hr' hrew ag hag
+    rw [sumN_congr hper, sumN_mul_right, sumN_plus, foldl_sum_sumN rew, hrew]
+    have hn : (k : Rat) ≠ 0 := by exact_mod_cast hk
+    rw [sumN_const]
+    unfold qlUpdate
+    field_simp
+    ring
+  · simp [hap]
+
 end AITB.Factored
